@@ -186,6 +186,8 @@ pub fn special_inputs() -> Vec<String> {
             v.push(format!("{b} a"));
         }
     }
+    // two groups with the same tokens but different inner grouping in one input
+    v.extend(crate::formulas::reparenthesised_texts(["a", "b", "c"]));
     // identifier shapes
     for id in [
         "EXa", "EX_", "EX1", "EXX", "EF1", "AG0", "EG5", "EX_a", "AU_rich", "EW_2", "AX2b", "EU1", "AXE", "E", "A", "A_", "EY", "AUx", "EWW", "3x", "3_", "33", "V1", "Vx", "V", "3", "1", "0", "01", "10", "1a", "true", "True", "TRUE",
